@@ -3,6 +3,7 @@ import ZenonVerif.Model.Pow
 import ZenonVerif.Model.Rpc
 import ZenonVerif.Model.Pool
 import ZenonVerif.Model.Rewards
+import ZenonVerif.Model.RewardEpoch
 import Driver.Core
 /-
 Driver handler of the `translated` stream: every line carries the answer of the REAL Go function; the driver evaluates
@@ -69,7 +70,45 @@ def pureTranslated : List String → Option String
                  (toString (Rewards.weightedSentinel reg revoke s e)))
   | ["tr-wamount", a, t] => do
       let a ← a.toInt?; let t ← t.toInt?
-      pure (resStr (fun (v : Int) => toString v) (Translated.getWeightedStakeAmount a (i64 t)))
+      if a < 0 then none
+      let m := match RewardEpoch.stakeWeightedAmount Gen.StakeTimeUnitSec a.toNat (i64 t).toInt with
+        | none => "panic" | some v => toString v
+      pure (both (resStr (fun (v : Int) => toString v) (Translated.getWeightedStakeAmount a (i64 t))) m)
+  | ["tr-gd", x, y] => do
+      let x ← ofHex x; let y ← ofHex y
+      let t := resStr (fun (b : Bool) => toString b) (Translated.greaterDifficulty x y)
+      let m := if x.length < 8 ∨ y.length < 8 then "panic" else toString (Pow.greaterDifficulty (x.take 8) (y.take 8))
+      pure (both t m)
+  | ["tr-netznn", e] => do
+      let e ← e.toNat?
+      if e ≥ two64 then none
+      let m := match Rewards.networkZnnRewardPerEpoch e with | none => "panic" | some v => toString v
+      pure (both (resStr (fun (v : BitVec 64) => toString v.toInt) (Translated.NetworkZnnRewardPerEpoch (bv64 e))) m)
+  | ["tr-netqsr", e] => do
+      let e ← e.toNat?
+      if e ≥ two64 then none
+      let m := match Rewards.networkQsrRewardPerEpoch e with | none => "panic" | some v => toString v
+      pure (both (resStr (fun (v : BitVec 64) => toString v.toInt) (Translated.NetworkQsrRewardPerEpoch (bv64 e))) m)
+  | ["tr-baseplasma", l] => do
+      let l ← l.toNat?
+      if l ≥ two63 then none
+      let t := match Translated.basePlasma_plainSend (bv64 l) with | (v, none) => s!"{v.toNat}" | (_, some e) => e
+      let m := match Pow.basePlasmaChecked false none l with | some v => s!"{v}" | none => "ErrABDataTooBig"
+      pure (both t m)
+  | ["tr-pageguard", name, sz] => do
+      let sz ← sz.toNat?
+      if sz ≥ two32 then none
+      let g ← Translated.pageGuards.lookup name
+      let t := match g (BitVec.ofNat 32 sz) with | .ok () => "passed" | _ => "toobig"
+      -- hand model: the C18 cap (GetUnreceivedBlocksByAddress has its own, smaller bound and is not in the stream)
+      let m := if sz > Gen.RpcMaxPageSize then "toobig" else "passed"
+      pure (both t m)
+  | ["tr-filter", ts] => do
+      let cs := if ts = "-" then [] else ts.toList
+      if cs.any (fun ch => !ch.isDigit) then none
+      let tys : List Nat := cs.map (fun ch => ch.toNat - '0'.toNat)
+      let t := resStr (fun (l : List (BitVec 64)) => toString l.length) (Translated.filterBlocksToCommit (tys.map bv64))
+      pure (both t (toString (Pool.filterBlocksToCommit tys).length))
   | _ => none
 
 end ZV.Driver
